@@ -169,6 +169,7 @@ def run(ctx):
                     fwd = True
         ctx.check(fwd, 'R2', 'fallback-block-order', f, 'the fallback maps block.txdata().iter() in block order (no reordering adaptor), like the insertion-time computation',
                   'the fallback does not iterate block.txdata() in block order: cached and recomputed fee lists differ in order')
+        cache_order(ctx)
         ctx.check(len(fr_) == 1 and len(rc) == 1, 'R3', 'cached-or-recomputed', fr_[0] if fr_ else f, 'per block: cached fee rates if present, else recomputed from its transactions', 'cached/recompute structure not found')
     # ---------------- R4 ------------------------------------------------------------------------
     require_writers(ctx, 'R4', 'writers:fee_percentiles_cache', 'ic_btc_canister::state::GenericState', 'fee_percentiles_cache', {w, 'ic_btc_canister::state::GenericState::map_tree'}, floor=1)
@@ -211,6 +212,59 @@ def run(ctx):
     if im:
         r = ex(prog, im).local(0)
         ctx.check(P.call(w, P.param('state'), P.item('NUM_TRANSACTIONS', 10000))(r), 'R5', 'impl', im, 'the heartbeat path uses the same computation with NUM_TRANSACTIONS', 'impl is %s' % show(r))
+
+
+def cache_order(ctx):
+    """R2 (added after seeded change C15-7): the insertion-time fee list reaches its reader in block order —
+    insert_outpoints appends one rate per transaction while walking block.txdata() forward, set_metrics stores
+    the list as it is and CachedBlock::fee_rates hands it out as it is. The 10 000-transaction window may end
+    inside a block; the fallback takes that block's transactions in block order, so the cached list must too."""
+    prog = ctx.prog
+    BTC = 'ic_btc_canister::blocktree::CachedBlock::'
+    REORDER = {'reverse', 'rev', 'sort', 'sort_unstable', 'sort_by', 'sort_by_key', 'sort_unstable_by', 'sort_unstable_by_key', 'insert', 'swap', 'rotate_left',
+               'rotate_right', 'dedup', 'retain', 'truncate', 'drain', 'split_off', 'pop', 'remove', 'swap_remove', 'skip', 'take', 'step_by', 'filter'}
+    sm = ctx.fn('R2', BTC + 'set_metrics')
+    if sm:
+        e = ex(prog, sm)
+        fa = field_assignments(prog, sm, 'ic_btc_canister::blocktree::CachedBlock', 'fee_rates')
+        SRC = P.field('fee_rates', P.param('metrics'))
+        ok = len(fa) == 1 and P.agg(variant='Some', _0=SRC)(fa[0][2]) and not cond_exprs(prog, sm, fa[0][0])
+        touching = sorted({(c.gshort or c.short or '?').rsplit('::', 1)[-1] for c in sm.calls() if not c.cleanup and any(P.has(SRC)(e.operand(a)) for a in c.args)})
+        ctx.check(ok and not (set(touching) & REORDER), 'R2', 'cache-stores-list-verbatim', sm, 'set_metrics stores metrics.fee_rates as it is',
+                  'set_metrics does not store the fee list verbatim (stored: %s; calls on the list: %s)' % ([show(x[2])[:80] for x in fa], touching))
+    fr = ctx.fn('R2', BTC + 'fee_rates')
+    if fr:
+        r = ex(prog, fr).local(0)
+        ok = P.call('*::as_deref', P.field('fee_rates', P.param('self')))(r) or P.field('fee_rates', P.param('self'))(r)
+        ctx.check(ok, 'R2', 'cache-returns-list-verbatim', fr, 'CachedBlock::fee_rates returns the stored list as it is', 'CachedBlock::fee_rates returns %s' % show(r)[:160])
+    io = ctx.fn('R2', 'ic_btc_canister::unstable_blocks::outpoints_cache::insert_outpoints')
+    if io:
+        e = ex(prog, io)
+        from sa.util import local_by_name
+        # the list that ends up in BlockMetrics.fee_rates
+        aggs = [e.rvalue(st['rv']) for b in io.blocks for st in b['stmts'] if (st.get('rv') or {}).get('agg') == 'adt' and st['rv']['adt'].endswith('BlockMetrics')]
+        lst = dict(aggs[0][4]).get('fee_rates') if len(aggs) == 1 else None
+        l = lst[2] if isinstance(lst, tuple) and lst[0] == 'var' and len(lst) > 2 else None
+        if l is None and isinstance(lst, tuple):
+            # single-definition local: find the local whose definition is this expression
+            for i in range(len(io.locals)):
+                if io.locals[i].get('name') and e.local(i) == lst:
+                    l = i
+        ops = set()
+        if l is not None:
+            for c in io.calls():
+                if c.cleanup or not c.args:
+                    continue
+                a0 = c.args[0]
+                pl = (a0.get('copy') or a0.get('move') or {}) if isinstance(a0, dict) else {}
+                recv = e.operand(a0)
+                if (isinstance(recv, tuple) and recv[0] == 'var' and len(recv) > 2 and recv[2] == l) or recv == lst:
+                    ops.add((c.gshort or c.short or '?').rsplit('::', 1)[-1])
+        tx_iter = [c for c in io.calls() if not c.cleanup and c.matches('core::slice::iter', '*::into_iter') and P.has(P.call('ic_btc_types::Block::txdata', P.param('block')))(e.operand(c.args[0]))]
+        names = {(c.gshort or c.short or '?').rsplit('::', 1)[-1] for c in io.calls() if not c.cleanup}
+        ok = l is not None and 'push' in ops and not (ops & REORDER) and bool(tx_iter) and not ({'rev', 'step_by', 'sort', 'sort_unstable', 'sort_by', 'sort_by_key'} & names)
+        ctx.check(ok, 'R2', 'insertion-list-in-block-order', io, 'insert_outpoints appends one fee rate per transaction while walking block.txdata() forward (operations on the list: %s)' % sorted(ops),
+                  'the insertion-time fee list is not built by appending in block order (list local found=%s, operations on it: %s)' % (l is not None, sorted(ops)))
 
 
 # plumbing between the interface and the analysed functions (rules/plumbing.py)
